@@ -418,7 +418,8 @@ def extract(unit, repo=None):
         text.append(unit.defs.rstrip() + "\n")
     text.append(unit.sig.rstrip() + "\n")
     if unit.contract.strip():
-        text.append(split_fresh_requires(unit.contract.strip()) + "\n")
+        # per-unit opt-out: on a few units the split makes the proof slower (measured: trimesh2.fill.loop 52 s -> > 900 s)
+        text.append((split_fresh_requires(unit.contract.strip()) if getattr(unit, "split_fresh", True) else unit.contract.strip()) + "\n")
     text.append("{\n" + unit.body_prefix)
     text.append('#line %d "%s"\n' % (line_start, path))
     text.append(body)
